@@ -2,4 +2,7 @@ package bkbn254
 
 import "github.com/consensys/gnark/internal/verifh/bk"
 
-func registerMore(k *bk.Kit) {}
+func registerMore(k *bk.Kit) {
+	k.Run["c02"] = RunC02
+	k.Run["c08"] = RunC08
+}
